@@ -575,7 +575,10 @@ fn anf<'a>(
             ty: _,
         } => {
             let ty_clone = e_ty.clone();
-            anf_imm(
+            // The value is stored in a Go `any`: a bare literal would get Go's default type
+            // (int, float64) instead of its goml type, so it is named first.
+            anf_operand(
+                true,
                 anfenv,
                 gensym,
                 *expr,
